@@ -333,7 +333,12 @@ def abstract_async_block(text, var, replacement):
     the block's captured values are passed to an abstract constructor named in the template)."""
     m = re.search(r"let %s = async (?:move )?\{" % re.escape(var), text)
     if not m:
-        return text, 0
+        # the variable may have been renamed in /repo: any `let X = async move {` (exactly one) is the same construct
+        ms = list(re.finditer(r"let (\w+) = async (?:move )?\{", text))
+        if len(ms) != 1:
+            return text, 0
+        m = ms[0]
+        var = m.group(1)
     o = m.end() - 1
     c = match_brace(text, o)
     # consume the trailing `;`
